@@ -133,7 +133,7 @@ def judge(prop, rejections, ndjson, job, verdict):
         lines = cache.get(r['tid'], [])
         payload = {'property': prop, 'clause': r['clause'], 'signature': sig, 'kind': 'session-trace',
                    'wcfg': job['wcfg'], 'cfgline': job['cfgline'], 'rejected_line': r['i'], 'extra': r.get('extra'),
-                   'events': [{k: ln.get(k) for k in ('k', 'c', 'm', 'h', 't')} for ln in lines if ln.get('k') != 'cfg' and ln['i'] <= r['i']],
+                   'events': [{k: ln.get(k) for k in ('k', 'c', 'm', 'h', 't', 'hex', 'cls') if k in ln} for ln in lines if ln.get('k') != 'cfg' and ln['i'] <= r['i']],
                    'lines': [ln for ln in lines if ln.get('k') == 'cfg' or ln['i'] <= r['i']][-6:]}
         verdict.reject(r['clause'], sig, payload, 'trace=%d line=%d extra=%s' % (r['tid'], r['i'], json.dumps(r.get('extra'))))
     return len(mine)
@@ -171,3 +171,78 @@ def run_config(name, c, constraint, tier, seed, props, workdir, wextra=None, per
     return {'name': name, 'graph': g, 'ndjson': nd, 'walks': len(walks), 'steps': steps, 'covered_edges': cov,
             'classes': ncls, 'drifts': drifts, 'wcfg': wcfg, 'cfgline': cl, 'consts': c,
             't_graph': round(t_graph, 1), 't_plan': round(t_plan, 1), 't_replay': round(t_replay, 1)}
+
+
+# ----------------------------------------------------------------------------- scripted / fuzz scenarios
+def scen_cfgline(wcfg):
+    las = wcfg.get('las', 65001)
+    caps = wcfg.get('caps')
+    allowed = [1]
+    names = {'route_refresh': 2, 'cisco_route_refresh': 128, 'enhanced_route_refresh': 70, 'graceful_restart': 64,
+             'cisco_multi_session': 131}
+    for n, code in names.items():
+        if caps is None or n in caps:
+            allowed.append(code)
+    if wcfg.get('four_bytes_as', True) or las > 65535:
+        allowed.append(65)
+    tick = wcfg.get('tick', 10.0)
+    return {'hold': wcfg.get('hold', 60), 'tnum': int(tick), 'tden': 1, 'las_hi': las >> 16, 'las_lo': las & 0xffff,
+            'caps': sorted(allowed), 'crt': int(wcfg.get('crt', 20) / tick), 'idle': int(wcfg.get('idle', 20) / tick)}
+
+
+def _scen_work(args):
+    import scenarios
+    k, jobs, outdir = args
+    return scenarios.run_jobs((k, jobs, outdir, scen_cfgline))
+
+
+def run_scenarios(kind, tier, seed, workdir, procs=16):
+    """C05 / C10 scenario drivers -> ndjson of recorded traces (tids from 20,000,000)."""
+    if kind == 'C05':
+        import random
+        jobs = _c05_jobs(tier, seed)
+    else:
+        jobs = _c10_jobs(tier, seed)
+    items = [(20000000 + i, j) for i, j in enumerate(jobs)]
+    chunks = [items[i::procs * 4] for i in range(procs * 4)]
+    with mp.get_context('fork').Pool(procs) as pool:
+        res = pool.map(_scen_work, [(k, ch, workdir) for k, ch in enumerate(chunks) if ch])
+    nd = os.path.join(workdir, 'scen_%s.ndjson' % kind)
+    with open(nd, 'w') as out:
+        for p, n in res:
+            with open(p) as fh:
+                shutil.copyfileobj(fh, out)
+            os.remove(p)
+    return nd, len(items)
+
+
+def _in_child(fn, *a):
+    """job lists are built in a child process (the scenario module imports the world, which patches time)"""
+    ctx = mp.get_context('fork')
+    with ctx.Pool(1) as pool:
+        return pool.apply(fn, a)
+
+
+def _mk_c05(tier, seed):
+    import scenarios
+    return scenarios.c05_jobs(tier, seed)
+
+
+def _mk_c10(tier, seed):
+    import scenarios
+    wcfg = dict(tick=10.0, crt=20, idle=20, hold=90, las=65001, ras=65002)
+    jobs = []
+    for cls, data in scenarios.fuzz_inputs(scenarios.world.REPO, tier, seed):
+        for state in ('OPENSENT', 'OPENCONFIRM', 'ESTABLISHED'):
+            if tier == 'quick' and state != 'ESTABLISHED' and (len(jobs) % 3):
+                continue
+            jobs.append(('c10', wcfg, state, cls, data))
+    return jobs
+
+
+def _c05_jobs(tier, seed):
+    return _in_child(_mk_c05, tier, seed)
+
+
+def _c10_jobs(tier, seed):
+    return _in_child(_mk_c10, tier, seed)
